@@ -220,7 +220,7 @@ def random_walks(seed, count, depth, ops=("begin", "commit", "cancel"), read_car
             if rnd.random() < 0.25:
                 p["inter"] = rnd.randrange(1, 3)
             plan.append(p)
-        out.append({"config": cfg, "term": {"dangling": rnd.choice([[], [], [77]]), "next_receipt": rnd.choice([1, 1, 9998])},
+        out.append({"config": cfg, "term": {"dangling": rnd.choice([[], [], [77], [9999], [5000]]), "next_receipt": rnd.choice([1, 1, 9998])},
                     "calls": calls, "plan": {"exchanges": plan}})
     return out
 
